@@ -38,4 +38,8 @@ def run_specs(run, specs, pid=None, parallel=True):
     for rep, s in zip(reps, todo):
         rep.spec = s
         run.add_function_report(rep)
+    from vf.lemmas import check_lemma
+
+    for name in sorted({l for s in todo for l in getattr(s, "lemmas", [])}):
+        check_lemma(run, name)
     return reps
